@@ -277,6 +277,13 @@ def cases(tier, rng):
     for _ in range(1500 if big else 40):
         rows = [_float_text(rng) for _ in range(rng.choice([2, 3, 4]))]
         yield {"op": "fbatch", "rows": rows}
+    # formatting batches that repeat values and contain both zeros (equal as numbers, different doubles and texts)
+    for xs in ([0.0, -0.0], [-0.0, 0.0], [0.0, 2.5, -0.0, 2.5, -1.25, 1e16], [-0.0, -0.0, 0.0], [1.5, 1.5], [-0.0, 2.5], [-0.0]):
+        yield {"op": "froundtrip", "xs": [f2h(x) for x in xs]}
+    for _ in range(400 if big else 40):
+        pool = [0.0, -0.0] + [_finite(_rand_double(rng)) for _ in range(rng.choice([1, 2, 3]))]
+        pool += [-pool[-1], float(int(pool[-1])) if abs(pool[-1]) < 1e15 else 1.0]
+        yield {"op": "froundtrip", "xs": [f2h(rng.choice(pool)) for _ in range(rng.choice([2, 3, 5, 8, 20]))]}
     # ---- the remaining public entry points of strops and the writers/parsers built on them
     for v in S + [2 ** 31, 10 ** 10 - 1]:
         yield {"op": "int_to_str", "n": v}
@@ -389,7 +396,8 @@ def cases(tier, rng):
         n = rng.choice([1, 2, 3, 6])
         yield {"op": "column", "ints": [rng.choice(S) if rng.random() < 0.4 else _rand_int(rng) for _ in range(n)],
                "unsigned": rng.random() < 0.5,
-               "floats": [f2h(_finite(_rand_double(rng) if rng.random() < 0.5 else float(_float_text(rng)))) for _ in range(n)],
+               "floats": ([f2h(rng.choice([0.0, -0.0, 2.5, -2.5, 1e16])) for _ in range(n)] if rng.random() < 0.3 else
+                          [f2h(_finite(_rand_double(rng) if rng.random() < 0.5 else float(_float_text(rng)))) for _ in range(n)]),
                "lists": [[_rand_int(rng) for _ in range(rng.choice([1, 2, 4]))] for _ in range(n)]}
 
 
@@ -720,8 +728,11 @@ def impl(c):
             xs = np.array([float.fromhex(h) for h in c["xs"]])
             texts = st.float_to_strings(xs)
             back = st.str_to_float(texts)
-            return {"text_ok": [bool(float(t) == x) or (math.isnan(x) and math.isnan(float(t))) for t, x in zip(_rows(texts), xs)],
-                    "back": [f2h(v) for v in back], "texts": _rows(texts)}
+            alone = [_rows(st.float_to_strings(xs[i:i + 1]))[0] for i in range(len(xs))]
+            rev = _rows(st.float_to_strings(xs[::-1].copy()))[::-1]
+            return {"text_ok": [f2h(float(t)) == f2h(x) for t, x in zip(_rows(texts), xs)],      # bit for bit: -0.0 is not 0.0
+                    "back": [f2h(v) for v in back], "texts": _rows(texts),
+                    "independent": _rows(texts) == alone == rev}
         if op == "fbatch":
             whole = [f2h(v) for v in st.str_to_float(list(c["rows"]))]
             alone = [f2h(st.str_to_float([r])[0]) for r in c["rows"]]
@@ -832,7 +843,8 @@ def oracle(c):
             return SKIP   # overflow / subnormal results: "units in the last place" is not meaningful there
         return ds
     if op == "froundtrip":
-        return {"text_ok": [True] * len(c["xs"]), "back": list(c["xs"]), "texts": [repr(float.fromhex(h)) for h in c["xs"]]}
+        return {"text_ok": [True] * len(c["xs"]), "back": list(c["xs"]), "texts": [repr(float.fromhex(h)) for h in c["xs"]],
+                "independent": True}
     if op == "fbatch":
         if any(parse_float_text(t) is None for t in c["rows"]):
             return SKIP
@@ -895,7 +907,8 @@ def agree(c, got, exp):
 def _decs_denote(decs, xs):
     """every exact decimal, correctly rounded, IS the double (the logic-level round trip)"""
     return (isinstance(decs, list) and len(decs) == len(xs)
-            and all(d is not None and f2h(dec_to_float(d)) == f2h(float.fromhex(h)) for d, h in zip(decs, xs)))
+            and all(d is not None and dec_to_float(d) == float.fromhex(h) for d, h in zip(decs, xs)))   # m*10^e has no signed zero:
+    # the sign of a zero is judged on the implementation's text and sign bit (agree), not on the exact decimal
 
 
 def agree_model(c, got, m):
@@ -944,8 +957,12 @@ def finding_key(c, got, exp):
             return "ints_to_strings:leading-zero-below-power-of-ten"
         return "ints_to_strings:wrong-text"
     if op == "froundtrip" and isinstance(got, dict) and "back" in got:
-        if not all(got["text_ok"]):
+        if not all(got["text_ok"]) or got.get("texts") != exp["texts"]:
             return "float_to_strings:text-does-not-denote-the-double"
+        if not got.get("independent", True):
+            return "float_to_strings:text-depends-on-batch"
+        if any((g[0] == "-") != (e[0] == "-") for g, e in zip(got["back"], exp["back"])):
+            return "float_roundtrip:sign-changed"
         d = max(ulps(float.fromhex(g), float.fromhex(e)) for g, e in zip(got["back"], exp["back"]))
         return "float_roundtrip:inexact-within-4ulp" if d <= ULP_TOL else "float_roundtrip:off-by-more-than-4ulp"
     if op == "fparse":
